@@ -840,6 +840,11 @@ class MayRaise:
         got = {}
         pairs = [(ps[i], a) for i, a in enumerate(e.args) if i < len(ps)] + [(k.arg, k.value) for k in e.keywords if k.arg in ps]
         for p_, a in pairs:
+            if isinstance(a, ast.Lambda):
+                pt = self.r.env(callee).get(p_, UNK)
+                li = self.r.lambda_info(fi, a, pt[2] if pt[0] == "callable" and len(pt) > 2 else None)
+                got[p_] = "func:" + li.qualname
+                continue
             if isinstance(a, ast.Name):
                 c = self.exact_class(a, fi, ctx)
                 if c is not None:
@@ -879,6 +884,9 @@ class MayRaise:
                         continue
                     a = n.args[idx] if idx < len(n.args) else next((k.value for k in n.keywords if k.arg == pname), None)
                     q = self.m.resolve_name(cfi.module, a.id) if isinstance(a, ast.Name) else None
+                    if isinstance(a, ast.Lambda):
+                        pt = self.r.env(fi).get(pname, UNK)
+                        q = self.r.lambda_info(cfi, a, pt[2] if pt[0] == "callable" and len(pt) > 2 else None).qualname
                     if q in self.m.functions:
                         if q not in out:
                             out.append(q)
